@@ -6,6 +6,8 @@
 package link
 
 import (
+	"context"
+	"net"
 	"bufio"
 	"errors"
 	"io"
@@ -445,6 +447,15 @@ func (l ErrList) Unwrap() []error { return l }
 func (e *FaultErr) Timeout() bool   { return e.timeout }
 func (e *FaultErr) Temporary() bool { return e.timeout }
 
+var commonInner = []struct {
+	name string
+	err  error
+}{
+	{"EPIPE", syscall.EPIPE}, {"ECONNRESET", syscall.ECONNRESET}, {"ECONNABORTED", syscall.ECONNABORTED}, {"ETIMEDOUT", syscall.ETIMEDOUT},
+	{"EAGAIN", syscall.EAGAIN}, {"ENOBUFS", syscall.ENOBUFS}, {"net.ErrClosed", net.ErrClosed}, {"io.ErrClosedPipe", io.ErrClosedPipe},
+	{"context.Canceled", context.Canceled}, {"context.DeadlineExceeded", context.DeadlineExceeded}, {"os.ErrClosed", os.ErrClosed},
+}
+
 // ExtraInner lists further errors an injected error may wrap; the scenarios
 // add error values of the LIBRARY's own exported error types here (a tunnel or
 // bridge reader surfaces another decoder's error).
@@ -454,7 +465,11 @@ var ExtraInner []func() error
 func NewFaultErr(c *sim.Ctx, what string) (*FaultErr, string) {
 	e := &FaultErr{Msg: what}
 	kind := "plain"
-	switch c.T.Pick(6, 1, 1, 1, 1, 1, 1, 1, 1) {
+	switch c.T.Pick(6, 1, 1, 1, 1, 1, 1, 1, 1, 3) {
+	case 9:
+		// the errors connections really die of
+		i := c.T.Int(len(commonInner))
+		e.Inner, kind = commonInner[i].err, "wraps-"+commonInner[i].name
 	case 8:
 		if len(ExtraInner) > 0 {
 			e.Inner, kind = ExtraInner[c.T.Int(len(ExtraInner))](), "wraps-an-error-of-the-library's-own-type"
